@@ -15,7 +15,7 @@ from harness import c14_gen, c14_oracle
 from harness.common import g_N, g_Z, g_list, g_text, g_opt, g_pair, REPO
 
 PROPERTY = "C14"
-FEATURES = ("fnest", "glue", "xid", "fbrace", "escq", "bsbr", "blockish", "adjstr", "dotnum", "fquote", "fromname", "kwdot")
+FEATURES = ("fnest", "glue", "xid", "fbrace", "escq", "bsbr", "blockish", "adjstr", "dotnum", "fquote", "fromname", "kwdot", "fnl")
 import re as _re
 _BLOCKISH = _re.compile(r"^\s*(def|class|if|elif|except|for|while|with|try|else|finally)\b")
 
@@ -33,26 +33,28 @@ def is_id_char(c):
     return ("a" + c).isidentifier()
 
 
-def query_offsets(text, real, rng, limit):
+def query_offsets(text, real, rng, limit, must=()):
+    """offsets for the Worder queries; `must` (identifier offsets inside f-string fields) are always included"""
     n = len(text)
     if n <= limit:
         return list(range(0, n + 1))
     cand = [o for o in range(n) if is_id_char(text[o]) or (o < len(real) and is_id_char(real[o])) or text[o] in ")]}.'\""]
+    must = sorted(set(must))[:limit]
     if len(cand) > limit:
-        cand = sorted(rng.sample(cand, limit))
-    return cand
+        cand = rng.sample(cand, limit)
+    return sorted(set(cand) | set(must))
 
 
-def observe(text, offsets=None, rng=None, limit=160, llf=True):
+def observe(text, offsets=None, rng=None, limit=160, llf=True, must=()):
     """rope's answers, or {"crash": "..."} when rope raises where no exception is an accepted observable"""
     try:
-        return _observe(text, offsets, rng, limit, llf)
+        return _observe(text, offsets, rng, limit, llf, must)
     except Exception as e:                   # noqa: BLE001
         import traceback
         return {"crash": "%s: %s" % (type(e).__name__, e), "trace": traceback.format_exc()[-1500:]}
 
 
-def _observe(text, offsets=None, rng=None, limit=160, llf=True):
+def _observe(text, offsets=None, rng=None, limit=160, llf=True, must=()):
     """Everything rope says about `text` (exceptions are recorded as None / their name)."""
     import warnings
     from rope.base import simplify, codeanalyze, worder
@@ -91,7 +93,7 @@ def _observe(text, offsets=None, rng=None, limit=160, llf=True):
             obs["llf_in"] = res
         w = worder.Worder(text)
         if offsets is None:
-            offsets = query_offsets(text, real, rng or random.Random(0), limit)
+            offsets = query_offsets(text, real, rng or random.Random(0), limit, must)
         q = {}
         for o in offsets:
             ans = []
@@ -123,6 +125,8 @@ def features(text, facts=None):
         return None
     fs = set()
     for (a, b, q, nested) in facts.fstrings:
+        if len(q) == 1 and any(text[i] == "\n" and text[i - 1] != "\\" for i in range(a + 1, b)):
+            fs.add("fnl")           # PEP 701: a newline inside a replacement field of a single-quoted f-string
         if nested:
             fs.add("fnest")
         else:
@@ -193,7 +197,7 @@ OBS_CLASS = {"regions": "lexing", "real_code": "lexing", "custom_generator": "lo
 
 # the structural features that can explain a failure of each observable class (others are ignored in signatures)
 # (glue, xid, fromname and kwdot are features of FIXED defects: they are generated, but explain nothing any more)
-RELEVANT = {"lexing": {"fnest", "fbrace"}, "logical": {"escq", "adjstr"}, "llf": {"blockish"},
+RELEVANT = {"lexing": {"fnest", "fnl", "fbrace"}, "logical": {"escq", "adjstr"}, "llf": {"blockish"},
             "words": {"bsbr", "dotnum", "fquote"}, "lines": set(), "crash": set()}
 
 
@@ -206,6 +210,9 @@ def explains(feat, text, facts, fail):
     fstr = [(a, b, q, nested) for (a, b, q, nested) in facts.fstrings]
     if feat == "fnest":
         return any(nested and (a <= off <= b if ob == "regions" else off >= a) for (a, b, q, nested) in fstr)
+    if feat == "fnl":
+        return any(len(q) == 1 and any(text[i] == "\n" and text[i - 1] != "\\" for i in range(a + 1, b))
+                   and (a <= off <= b if ob == "regions" else off >= a) for (a, b, q, nested) in fstr)
     if feat == "fbrace":
         def unbalanced(a, b):
             t = text[a:b]
@@ -299,7 +306,7 @@ def signature(obj):
     if flags is not None:
         if flags.get("model_mismatch"):
             sig += "!model-and-rope-disagree"
-        elif sig.startswith("lexing:fnest") and flags.get("lex_sane", False):
+        elif (sig.startswith("lexing:fnest") or sig.startswith("lexing:fnl")) and flags.get("lex_sane", False):
             sig += "!not-predicted-by-model"
         elif sig.startswith("logical:") and sig != "logical:plain" and flags.get("shape_free", False):
             sig += "!not-predicted-by-model"
@@ -523,7 +530,11 @@ def corpus_slices(rng, count, max_lines):
 
 
 # ----------------------------------------------------------------------------- fixed cases
-FIXED = [
+RAW_F = ["rf", "Rf", "rF", "RF", "fr", "Fr", "fR", "FR"]
+RAW_F_CASES = (["x = %s'a\\d{foo.bar_1(x).baz}{y!r:>{w}}' + z\n" % p for p in RAW_F]
+               + ['q = %s"""\\w+{a.b}\n{items[0].count(k)} \\{c.d.e}"""\n' % p for p in RAW_F])
+
+FIXED = RAW_F_CASES + [
     "", "\n", "x", "x\n", "\n\n", "a = 1\nb = 2", "#", "# c\n", "'", '"', '""', "''''''", '"""', "'''a", "\\", "\\\n",
     "x = 'a' \"b\" '''c''' \"\"\"d\"\"\"\n", "s = 'it\\'s' + \"q\\\"q\" # '\n", "x = (1,\n     2)\ny = [\n]\n",
     "a = 1; b = 2\n\tc\t=\t3\n", "x = 1 + \\\n    2\n", "rb = Rb'\\x00' + bR\"\"\"a\nb\"\"\"\n", "u = U'\u00e9' + u\"\u540d\"\n",
@@ -643,7 +654,9 @@ def run(ctx):
             continue
         seen.add(t)
         facts, why = c14_oracle.analyze(t)
-        obs = observe(t, rng=rng, limit=ctx.scale(70, 160))
+        inner = [o for (a, b, _s, inf) in facts.names if inf for o in range(a, b)] if facts is not None else []
+        ctx.count("query_offsets_inside_fstring_fields", len(inner))
+        obs = observe(t, rng=rng, limit=ctx.scale(70, 160), must=inner)
         if "crash" in obs:
             ctx.case(("text", t), nontrivial=False)
             ctx.violation({"kind": "text", "text": t, "origin": origin, "observable": "crash", "detail": obs["crash"], "trace": obs["trace"]},
